@@ -77,6 +77,26 @@ inputs:
               task: $task:$class
       - type: delFields
         keys: [facility, pid, extradata]
+      # value-rewriting transforms at the INPUT stage (the configuration comments allow any transform there): their results
+      # sit in the batch buffers of the receiver and the orchestrator sink until the pipeline serializes them, unlike the
+      # same transforms in the pipeline, which run right before serialization. Only for app=trunc, so that the other
+      # shapes keep reaching the pipeline with the parser's own slices.
+      - type: if
+        match:
+          app: trunc
+        then:
+          - type: truncate
+            key: log
+            maxLen: 200
+            suffix: ' ... (cut at input)'
+          - type: truncate
+            key: source
+            maxLen: 6
+            suffix: '~'
+          - type: replace
+            key: host
+            pattern: !!regex ^host(.*)$
+            replacement: HOST-$1
 orchestration:
   type: byKeySet
   keys: [app]
